@@ -43,7 +43,9 @@ fn roots(t: &mut Toks, cx: &mut Ctx) -> String {
                     let be = cabs(pv) / (amax * scale).max(1e-300);
                     if be > cx_maxbe(cx) { cx.meta.retain(|kv| kv.0 != "maxbe"); cx.meta("maxbe", format!("{:e}", be)); }
                     // the closed quadratic formula is backward stable (no iteration, no deflation): hold it to 1e-12
-                    let lim = if n <= 2 { 1e-12 } else { 1e-7 };
+                    // polished values (refine) are Laguerre fixed points of the ORIGINAL polynomial: observed <= 2.5e-16 on 12 000 cases, held to
+                    // 1e-12; unrefined Cardano / deflated Laguerre values: observed <= 2.6e-8 (cancellation, deflation), held to 1e-7
+                    let lim = if n <= 2 || refine { 1e-12 } else { 1e-7 };
                     if !(be <= lim) { cx.fail(format!("root {} = ({:e},{:e}) has backward error {:e} (|p(z)| = {:e}, max|a| = {:e})", k, zk.real, zk.imag, be, cabs(pv), amax)); }
                 }
                 if !cx.fails.is_empty() && n == 3 && !refine && cardano_discriminant_lost(&coeffs) {
@@ -55,7 +57,7 @@ fn roots(t: &mut Toks, cx: &mut Ctx) -> String {
                     // classify: does the reference copy of the pinned Laguerre + deflation algorithm fail on this input too?
                     let (rr, cyc) = ref_poly_solve(&coeffs, refine);
                     let rbe = rr.iter().map(|w| backward_error(&coeffs, *w)).fold(0.0, f64::max);
-                    if cyc || rbe > 1e-7 {
+                    if cyc || rbe > (if refine { 1e-12 } else { 1e-7 }) {
                         let why = if cyc { "a Laguerre iteration from the fixed start x = 0 uses up its 79 steps without converging" } else if !refine { "deflation without polishing loses accuracy / accepts a far-away point" } else { "the iteration accepts a point that is not a root" };
                         for f in cx.fails.iter_mut() { f.push_str(&format!(" [pinned Laguerre+deflation algorithm fails on this input: {}; reference backward error {:e}]", why, rbe)); }
                     }
